@@ -137,6 +137,52 @@ def check_dim_grid(case, rec):
     gradcheck.check_grad(ops.BY_NAME[case["op"]], case, rec)
 
 
+# ---- one tensor in several operand roles of matmul / addmm ------------------------------------------------
+@st.composite
+def same_roles_cases(draw):
+    n = draw(st.integers(1, 4))
+    return {"n": n, "v": draw(gen.grid([n, n], -16, 16)), "kind": draw(st.sampled_from(["matmul", "matmul_op", "addmm_xxx", "addmm_xxy", "addmm_yxx", "addmm_xyx"])),
+            "w": draw(gen.grid([n, n], -16, 16)), "g": draw(gen.upstream()), "dtype": draw(gen.DTYPES)}
+
+
+def check_same_roles(c, rec):
+    from .. import fd
+    dt = np.dtype(c["dtype"])
+    n = c["n"]
+    x = gen.arr(c["v"], [n, n], dt)
+    y = gen.arr(c["w"], [n, n], dt)
+
+    def forward(a, b):
+        k = c["kind"]
+        if k == "matmul":
+            return sg.matmul(a, a)
+        if k == "matmul_op":
+            return a @ a
+        r = {"x": a, "y": b}
+        return sg.addmm(r[k[6]], r[k[7]], r[k[8]])
+
+    t, u = Tensor(x.copy(), requires_grad=True), Tensor(y.copy(), requires_grad=True)
+    out = forward(t, u)
+    rec.nontrivial(n >= 2)
+    rec.tag(c["kind"])
+    g = gen.cyc(c["g"], out.shape, dt)
+    try:
+        out.backward(Tensor(g.copy()))
+    except Exception as e:  # noqa: BLE001
+        raise Violation("backward_raised", f"{c['kind']}: backward raised {type(e).__name__}: {e}; {c}", region="same_roles")
+    want = fd.fd_vjp(lambda xs: np.asarray(forward(Tensor(xs[0].copy()), Tensor(xs[1].copy())).data),
+                     [x.astype(np.float64), y.astype(np.float64)], g, [0, 1])
+    for i, tt in ((0, t), (1, u)):
+        if tt.grad is None:
+            if np.abs(want[i]).max(initial=0.0) > 0:
+                raise Violation("grad_missing", f"{c['kind']}: operand {'xy'[i]} has no gradient; {c}", region="same_roles")
+            continue
+        ok, err, sc = fd.close(tt.grad.data, want[i], dt)
+        if not ok:
+            raise Violation("grad_value", f"{c['kind']} (one tensor in several operand roles): gradient of {'xy'[i]} differs from the "
+                                          f"finite-difference VJP by {err:.3e} (scale {sc:.3g}); {c}", region="same_roles")
+
+
 # ---- operands with a zero-length dimension ---------------------------------------------------------
 def check_zero_size(c, rec):
     from .. import zerosize
@@ -176,5 +222,6 @@ def subchecks():
     subs.append(SubCheck("maxmin_near_ties", check_near_ties, near_tie_cases, quick=300, thorough=4000))
     from .. import zerosize
     subs.append(SubCheck("zero_size", check_zero_size, zerosize.cases, quick=500, thorough=6000))
+    subs.append(SubCheck("same_tensor_roles", check_same_roles, same_roles_cases, quick=300, thorough=4000))
     subs.append(SubCheck("dim_grid", check_dim_grid, None, enum=enum_dims_grad, exhaustive=True, shards_quick=8, shards_thorough=16))
     return subs
